@@ -633,6 +633,30 @@ def rule_coh_grid(ctx: Ctx) -> None:
                 if norm(kws['ranks']) == 'ranks' and isinstance(h, ast.Subscript) and isinstance(h.value, ast.Name) and norm(h.slice) == 'ranks':
                     good = True
                     handle_tables.add(h.value.id)
+        if not good and member == 'self.local_rank':
+            # the receiver group does not depend on the layer: it may be searched once, before the layer loop, into a local
+            # (`R = None; for ranks in TAB: if self.local_rank in ranks: R = ranks`) and stored under `R is not None`
+            for st in sts:
+                v = st.value
+                if not (isinstance(v, ast.Call) and norm(v.func) == '_Group' and sorted(k.arg or '' for k in v.keywords) == ['group', 'ranks'] and norm(st.targets[0].slice) == 'layer'):
+                    continue
+                kws = {k.arg: k.value for k in v.keywords}
+                R, h = kws['ranks'], kws['group']
+                if not (isinstance(R, ast.Name) and isinstance(h, ast.Subscript) and isinstance(h.value, ast.Name) and norm(h.slice) == R.id):
+                    continue
+                defs = [n for n in nodes if isinstance(n, ast.Assign) and len(n.targets) == 1 and norm(n.targets[0]) == R.id]
+                found = [d for d in defs if isinstance(d.value, ast.Name)]
+                inits = [d for d in defs if norm(d.value) == 'None']
+                if len(found) != 1 or len(found) + len(inits) != len(defs):
+                    continue
+                d = found[0]
+                lps = [lp for lp in flow.enclosing_loops(p, init, d) if isinstance(lp, ast.For)]
+                atoms_d = [(norm(a), pol) for g in flow.enclosing_guards(p, init, d) for a, pol in conjuncts(g.test, g.polarity)]
+                atoms_s = [(norm(a), pol) for g in flow.guards(p, init, st) for a, pol in conjuncts(g.test, g.polarity)]
+                if len(lps) == 1 and norm(lps[0].iter) == tab and norm(lps[0].target) == norm(d.value) and (f'{member} in {norm(d.value)}', True) in atoms_d \
+                        and ((f'{R.id} is None', False) in atoms_s or (f'{R.id} is not None', True) in atoms_s or not inits):
+                    good = True
+                    handle_tables.add(h.value.id)
         ctx.check(good, 'COH-GRID', init, f'{rec}[layer] = the element of {tab} containing {member}, with the handle created for the same ranks', rec,
                   f'self.{rec}[layer] is not set to _Group(ranks=ranks, group=ranks_to_communication_group[ranks]) for the element of {tab} that contains {member}', sts[0] if sts else init.node)
     iw = assigned('inv_worker')
